@@ -59,46 +59,20 @@ theorem stepInstr_ec (cfg : Cfg) (harg : cfg.arg = .first) (sh : Shared) (pooled
     (rest : List Instr) (hi : ECstrong i) (hrest : ∀ j ∈ rest, ECstrong j) :
     (∀ j ∈ (stepInstr cfg sh pooled i rest).code, ECok (stepInstr cfg sh pooled i rest).sh j) ∧
       ∀ t ∈ (stepInstr cfg sh pooled i rest).spawn, ∀ j ∈ t.code, ECok (stepInstr cfg sh pooled i rest).sh j := by
-  have hr : ∀ sh', ∀ j ∈ rest, ECok sh' j := fun sh' j hj => (hrest j hj).ok sh'
-  have cons : ∀ {sh' : Shared} {j : Instr}, ECok sh' j → ∀ k ∈ j :: rest, ECok sh' k :=
-    fun hj => List.forall_mem_cons.mpr ⟨hj, hr _⟩
-  cases i with
-  | start st =>
-    simp only [stepInstr]; split
-    · exact ⟨hr _, by simp⟩
-    · exact ⟨cons trivial, by simp⟩
-  | register st => exact ⟨cons trivial, by simp [stepInstr]⟩
-  | launch st =>
-    simp only [stepInstr]; split
-    · exact ⟨hr _, by simp [ECok]⟩
-    · exact ⟨cons trivial, by simp⟩
-  | exec st =>
-    simp only [stepInstr]; split
-    · refine ⟨?_, by simp⟩
-      intro j hj
-      simp only [handler, List.append_assoc, List.mem_append, List.mem_map, List.mem_cons,
-        List.mem_nil_iff, or_false] at hj
-      rcases hj with ⟨c, hc, rfl⟩ | rfl | hj
-      · trivial
-      · trivial
-      · exact hr _ j hj
-    · exact ⟨cons trivial, by simp⟩
-    · split
-      · exact ⟨cons trivial, by simp⟩
-      · refine ⟨?_, by simp⟩
-        cases pooled <;> simp [ECok]
-  | track e => exact ⟨cons trivial, by simp [stepInstr]⟩
-  | dec e =>
-    simp only [stepInstr, harg]
-    split
-    · rename_i hz
-      exact ⟨cons (by simpa [ECok] using hz), by simp⟩
-    · exact ⟨hr _, by simp⟩
-  | load own => simp [ECstrong] at hi
-  | fire e own =>
-    simp only [stepInstr]; split
-    · exact ⟨hr _, by simp⟩
-    · exact ⟨hr _, by simp⟩
+  refine ⟨stepInstr_forall (fun j hj => (hrest j hj).ok _) ?_, ?_⟩
+  · intro j hc
+    cases hc with
+    | fireOwn e ha _ => rw [harg] at ha; cases ha
+    | load e _ hz =>
+      simp only [ECok, stepInstr, harg, hz, if_true]
+    | fire own => simp [ECstrong] at hi
+    | planMain s _ _ _ => simp [ECok]
+    | panMain s _ _ _ => simp [ECok]
+    | _ => trivial
+  · intro t ht j hj
+    obtain ⟨st, _, _, _, rfl⟩ := stepInstr_spawn ht
+    simp only [List.mem_singleton] at hj; subst hj
+    trivial
 
 /-- the panic of a stage running inline on the goroutine that called `pipeline.Execute` -/
 def MainPanic (sh : Shared) (pooled : Bool) (i : Instr) (e : Eff) : Prop :=
@@ -116,7 +90,7 @@ theorem stepInstr_carry (cfg : Cfg) (harg : cfg.arg = .first) (sh : Shared) (poo
       ∨ (stepInstr cfg sh pooled i rest).sh.firstErr = true
       ∨ 0 < csum Instr.trackT (stepInstr cfg sh pooled i rest).code
       ∨ MainPanic sh pooled i (stepInstr cfg sh pooled i rest)) := by
-  cases i <;> simp only [stepInstr, MainPanic] <;> (repeat' split) <;>
+  cases i <;> simp only [stepInstr, panicEff, MainPanic] <;> (repeat' split) <;>
     simp_all [Instr.trackT, Instr.owed]
   all_goals (try (cases pooled <;> simp_all))
   all_goals (try (rename_i e; cases e <;> simp_all))
@@ -233,12 +207,7 @@ theorem mainEC_step {cfg : Cfg} (harg : cfg.arg = .first) {s s' : State} {n : Na
           · exact hinv.res f hf
           · simp only [List.mem_singleton] at hf; subst hf; intro _; exact hhs
       | load own => simp [ECstrong] at hhs
-      | start st => simp only [stepInstr]; split <;> exact hinv.res
-      | register st => exact hinv.res
-      | launch st => simp only [stepInstr]; split <;> exact hinv.res
-      | exec st => simp only [stepInstr]; (repeat' split) <;> exact hinv.res
-      | track e => exact hinv.res
-      | dec e => simp only [stepInstr]; (repeat' split) <;> exact hinv.res
+      | _ => simp only [stepInstr, panicEff] <;> (repeat' split) <;> exact hinv.res
 
 theorem invEC_reachable {cfg : Cfg} (harg : cfg.arg = .first) {root : Stage} {s : State}
     (hr : Reachable cfg (init root) s) : InitPhase root s ∨ MainEC s := by
